@@ -744,7 +744,7 @@ def access_order_fails(R, check_coh):
     jobs.append(("an", lambda: CoherenceAnalyzer(TimeSeries(R.x, sampling_rate=Fs), method=dict(m), unwrap_phases=unwrap),
                  AN_ATTRS, pristine_an, ["delay"] if unwrap else []))
     if d["N"] <= 300:
-        for adaptive in (True, False):
+        for adaptive in ((True,) if rnd.random() < 0.5 else (False,)):
             P = MTCoherenceAnalyzer(TimeSeries(R.x, sampling_rate=Fs), adaptive=adaptive)
             c0 = np.array(P.coherence)
             check_coh("mt.coherence", c0)
@@ -806,8 +806,10 @@ def reuse_fails(R, check_coh):
     seconds = [("gain-scaled", R.x0 * g[:, None]), ("other-signals", make_signals(d2)[0])]
     makers = [("an", lambda ts: CoherenceAnalyzer(ts, method=dict(m)), AN_ATTRS, True)]
     if d["N"] <= 300:
-        makers.append(("mt", lambda ts: MTCoherenceAnalyzer(ts, adaptive=True), MT_ATTRS, False))
-        makers.append(("mt", lambda ts: MTCoherenceAnalyzer(ts, adaptive=False), MT_ATTRS, True))
+        if rnd.random() < 0.5:     # one flavour per input (both occur over the inputs of a run)
+            makers.append(("mt", lambda ts: MTCoherenceAnalyzer(ts, adaptive=True), MT_ATTRS, False))
+        else:
+            makers.append(("mt", lambda ts: MTCoherenceAnalyzer(ts, adaptive=False), MT_ATTRS, True))
     for tag, make, attrs, gain_ok in makers:
         gain_ok = gain_ok and d["kind"] != "mt_adaptive"
         which, x2 = seconds[rnd.randrange(2)]
